@@ -551,6 +551,118 @@ func runC20(r *mon.Run) {
 		w.Sample(map[string]any{"batch": batch, "goroutines": G, "calls_per_goroutine": calls, "operations": names, "overlapping_pairs_same_object": overlaps})
 		r.Extra("operations_seen", opsSeen)
 	})
+	// Phase 3 - input churn.  Many DISTINCT inputs in circulation, each goroutine coming back
+	// to recently used ones while the others move on: whatever the library remembers between
+	// calls (memoised square roots, decoded keys, scratch pools) is filled, hit and evicted
+	// concurrently.  Expected results come from the reference model, computed beforehand.
+	r.Require("c20:churn:calls", "c20:churn:distinct-inputs")
+	r.Seq("c20/input-churn", 1, func(w *mon.W, _ int) {
+		K := r.N(96, 256)
+		iters := r.N(2500, 20000)
+		type item struct {
+			cmp, unc, x, odd []byte // encodings of P; odd = compressed encoding of the other lift
+			other            []byte // uncompressed encoding of -P
+			even             []byte // uncompressed encoding of the even-y lift
+		}
+		items := make([]item, K)
+		prng := gen.New(r.Seed, batch, "C20", "churn-pool")
+		for i := range items {
+			P := oracle.MulG(prng.Below(bigN))
+			for P.Inf {
+				P = oracle.MulG(prng.Below(bigN))
+			}
+			N := oracle.Neg(P)
+			ev := P
+			if P.Y.Bit(0) == 1 {
+				ev = N
+			}
+			items[i] = item{cmp: oracle.EncodeCompressed(P), unc: oracle.EncodeUncompressed(P), x: b32(P.X), odd: oracle.EncodeCompressed(N), other: oracle.EncodeUncompressed(N), even: oracle.EncodeUncompressed(ev)}
+		}
+		var wg sync.WaitGroup
+		gate := make(chan struct{})
+		type bad struct {
+			g, j, idx int
+			op        string
+			got, want []byte
+		}
+		bads := make([][]bad, G)
+		for g := 0; g < G; g++ {
+			wg.Add(1)
+			go func(g int) {
+				defer wg.Done()
+				rng := gen.New(r.Seed, g, "C20", "churn", strconv.Itoa(batch))
+				<-gate
+				base := rng.Intn(K)
+				for j := 0; j < iters; j++ {
+					// a sliding window of recently used inputs, advancing slowly; now and then a jump
+					if rng.Chance(1, 6) {
+						base = (base + 1) % K
+					}
+					if rng.Chance(1, 200) {
+						base = rng.Intn(K)
+					}
+					idx := (base + rng.Intn(24)) % K
+					it := items[idx]
+					var got, want []byte
+					op := ""
+					switch rng.Intn(5) {
+					case 0:
+						op = "SetCompressedBytes"
+						p, err := new(Point).SetCompressedBytes(it.cmp)
+						if err == nil {
+							got = p.UncompressedBytes()
+						}
+						want = it.unc
+					case 1:
+						op = "NewPointFromBytes(other lift)"
+						p, err := secp256k1.NewPointFromBytes(it.odd)
+						if err == nil {
+							got = p.UncompressedBytes()
+						}
+						want = it.other
+					case 2:
+						op = "NewSchnorrPublicKey"
+						k, err := bitcoin.NewSchnorrPublicKey(it.x)
+						if err == nil {
+							got = k.Point().UncompressedBytes()
+						}
+						want = it.even
+					case 3:
+						op = "secec.NewPublicKey"
+						k, err := secec.NewPublicKey(it.cmp)
+						if err == nil {
+							got = k.Bytes()
+						}
+						want = it.unc
+					default:
+						op = "RecoverPoint"
+						xs, _ := secp256k1.NewScalarFromBytes((*[32]byte)(it.x))
+						want = it.unc
+						if oracle.FromBytes(it.x).Cmp(bigN) >= 0 {
+							continue
+						}
+						p, err := secp256k1.RecoverPoint(xs, it.unc[64]&1)
+						if err == nil {
+							got = p.UncompressedBytes()
+						}
+					}
+					if !bytes.Equal(got, want) && len(bads[g]) < 4 {
+						bads[g] = append(bads[g], bad{g, j, idx, op, got, want})
+					}
+				}
+			}(g)
+		}
+		close(gate)
+		wg.Wait()
+		w.ClassN("c20:churn:calls", int64(G*iters))
+		w.ClassN("c20:churn:distinct-inputs", int64(K))
+		w.Case(true, []byte("churn"), []byte(fmt.Sprint(batch)))
+		for g := range bads {
+			for _, b := range bads[g] {
+				w.Fail("c20/input-churn:"+b.op, fmt.Sprintf("%s (goroutine %d, call %d, input #%d of %d in circulation) returned %x while %d goroutines decode a churning input set; the reference model gives %x", b.op, b.g, b.j, b.idx, K, b.got, G, b.want), "batch", batch)
+			}
+		}
+	})
 	// "package initialisation of the embedded tables is complete before any such call": every operation
 	// kind as the first library call of its own process
 	runColdStart(r, "c20", r.N(30, 450), "dsm", "sbm", "sm", "msm", "msmv", "pubkey", "verify", "btcverify", "recover", "schnorrverify", "ecdh", "sign", "schnorrsign", "h2c", "parsepub", "generate")
